@@ -51,7 +51,11 @@ func (r *reader) Token() (xml.Token, error) {
 			// With WebSocket framing the peer ends its stream with a <close/>
 			// element (RFC 7395 §3.6): it is to this framing what
 			// </stream:stream> is to a TCP stream, so we're done.
-			if t.Name.Local == "close" {
+			// Only a top level <close/> is that: inside another element it is as
+			// out of place as any other framing element, and reporting it as the
+			// end of the input would make the element look complete to whoever is
+			// reading it.
+			if t.Name.Local == "close" && r.depth == 1 {
 				return nil, io.EOF
 			}
 			return nil, ErrUnexpectedRestart
